@@ -1102,6 +1102,27 @@ pub enum OneSk {
 	S(u64),
 	B(u16),
 }
+/// a transparent newtype whose only field is zero-sized in memory but not on the wire
+#[derive(Encode, Decode, DecodeWithMemTracking, MaxEncodedLen, Debug, PartialEq, Clone)]
+#[repr(transparent)]
+pub struct TrU(pub Unit1);
+impl Uni for TrU {
+	fn desc() -> String {
+		nest("TPair", "TUnit", &[Unit1::desc()])
+	}
+	fn gen(_: &mut Rng, _: u32) -> Self {
+		TrU(Unit1::Only)
+	}
+	fn val(&self) -> String {
+		nest("VPair", "VUnit", &[self.0.val()])
+	}
+	fn same(&self, o: &Self) -> bool {
+		self == o
+	}
+	fn min_wire() -> usize {
+		1
+	}
+}
 impl Uni for Unit1 {
 	fn desc() -> String {
 		"(TEnum (VsCons 9 TUnit VsNil))".into()
